@@ -140,7 +140,7 @@ def tree_case(rng, maxn=6):
 def finish(rng, family, n, tree, labels=None, wild=False):
     uses_matrix = bool(tree_kinds(tree, set()) & MATRIX)
     if labels is None:
-        labels = "int" if uses_matrix else rng.choice(Labels.STYLES)
+        labels = "int" if uses_matrix else rng.choice(Labels.STYLES_XEQ)
     num = rng.choice(["int", "frac", "float"])
     if num == "float" and (wild or not all_dyadic(tree)):
         num = "frac"       # products of arbitrary dyadic coefficients outgrow the 53-bit mantissa; {0,1}-valued leaves stay exact
